@@ -86,7 +86,9 @@ COQ_TY = {'Z': 'Z', 'bool': 'bool', 'optZ': 'option Z', 'nat': 'nat', 'unit': 'u
 
 
 def coq_ty(t):
-    return COQ_TY.get(t, t)
+    if t in COQ_TY:
+        return COQ_TY[t]
+    return re.sub(r'[A-Za-z_]\w*', lambda m: COQ_TY.get(m.group(0), m.group(0)) if m.group(0) not in ('Z', 'bool', 'nat', 'unit') else m.group(0), t)
 
 
 # ------------------------------------------------------------------------------------ environment
@@ -138,6 +140,11 @@ class FnTranslator:
         self.skip_defs = dict(cfg.get('skip_defs', {}))   # nested def name -> exact ast.unparse text it must have
         self.var_types = cfg.get('var_types', {})     # type of `x = []`
         self.fuel = list(cfg.get('fuel', []))
+        self.truthy = cfg.get('truthy', {})           # config type -> bool template ({0} = the value)
+        self.ignore = [re.compile(r) for r in cfg.get('ignore_stmts', [])]   # statements without effect on the model
+        self.rewrites = cfg.get('stmt_rewrites', [])  # (exact text | 'sha256:<hex>', replacement python source)
+        for t, c in cfg.get('types', {}).items():
+            COQ_TY[t] = c
         self.loops = []                               # emitted Fixpoints (text)
         self.nloop = 0
         self.ninst = 0
@@ -398,6 +405,8 @@ class FnTranslator:
                     return self.cond(first, env, ctx, kt, lambda e: self.cond(rest_t, e, ctx, kt, kf))
                 return self.cond(first, env, ctx, lambda e: self.cond(rest_t, e, ctx, kt, kf), kf)
         g, t, ty = self.tr(test, env)
+        if ty in self.truthy and t is not None:
+            t, ty = self.truthy[ty].format(t), 'bool'
         if ty != 'bool':
             refuse('condition of type %s (truthiness is outside the subset): %s' % (ty, ast.unparse(test)), test)
         return self.wrap(g, env, ctx, lambda e: '(if %s then %s else %s)' % (t, kt(e), kf(e)))
@@ -594,7 +603,7 @@ class FnTranslator:
         return e
 
     def formal_args(self):
-        return ' '.join('(%s : %s)' % (a, t) for a, t in self.args)
+        return ' '.join('(%s : %s)' % (a, coq_ty(t)) for a, t in self.args)
 
     def actual_args(self):
         return ' '.join(a for a, _ in self.args)
@@ -687,6 +696,77 @@ class FnTranslator:
             call_prefix, fuel_term, st_args(env), ctx.ret('r__'), pat,
             krest(self.after_loop_env(env, state, body_locals)))
 
+    # -- slicing / preprocessing driven by the config (every rule is exact-text or regex on ast.unparse)
+    def slice_body(self, fn):
+        """config 'slice': (text of the first statement, header text of the last compound statement): translate only
+        that run of top-level statements of the (possibly nested) block that contains it, between synthetic
+        'slice_pre' / 'slice_post' python statements"""
+        sl = self.cfg.get('slice')
+        if not sl:
+            return fn.body
+        first, last = sl
+        found = []
+        for n in ast.walk(fn):
+            for f in ('body', 'orelse', 'finalbody'):
+                blk = getattr(n, f, None)
+                if not isinstance(blk, list):
+                    continue
+                for a, st in enumerate(blk):
+                    if isinstance(st, ast.stmt) and ast.unparse(st) == first:
+                        for b in range(a, len(blk)):
+                            if ast.unparse(blk[b]).split('\n')[0] == last:
+                                found.append(blk[a:b + 1])
+                                break
+        if len(found) != 1:
+            refuse('slice %r .. %r found %d times' % (first, last, len(found)), fn)
+        pre = ast.parse('\n'.join(self.cfg.get('slice_pre', []))).body
+        post = ast.parse('def f__():\n' + '\n'.join('    ' + l for l in self.cfg.get('slice_post', ['pass']))).body[0].body
+        return pre + found[0] + post
+
+    def preprocess(self, stmts, loop=None, top=None):
+        """drop the statements the config declares irrelevant (ignore_stmts), apply the exact-text rewrites.
+        An ignored statement may not store a name that translated code uses -- except the target of the
+        enclosing for loop when nothing after the statement in that loop body reads it."""
+        import hashlib, collections
+        if top is None:
+            top = stmts
+        def names(nodes, kind=None):
+            c = collections.Counter()
+            for x in nodes:
+                for n in ast.walk(x):
+                    if isinstance(n, ast.Name) and (kind is None or isinstance(n.ctx, kind)):
+                        c[n.id] += 1
+            return c
+        out = []
+        for st in stmts:
+            text = ast.unparse(st)
+            if any(r.search(text) for r in self.ignore) and not isinstance(st, (ast.Return, ast.Raise, ast.Break, ast.Continue)):
+                others = names(top) - names([st])
+                for v in names([st], ast.Store):
+                    if others[v] == 0:
+                        continue
+                    later = [x for x in (loop.body if loop is not None else []) if x.lineno > st.lineno]
+                    if loop is not None and isinstance(loop.target, ast.Name) and loop.target.id == v \
+                            and not any(v in names([x], ast.Load) for x in later) \
+                            and not any(v in names([x], ast.Load) for x in stmts if x.lineno > st.lineno):
+                        continue
+                    refuse('ignored statement assigns %s, which translated code uses' % v, st)
+                continue
+            rep = None
+            for key, src in self.rewrites:
+                if key == text or (key.startswith('sha256:') and key[7:] == hashlib.sha256(text.encode()).hexdigest()):
+                    rep = ast.parse(src).body
+            if rep is not None:
+                out += rep
+                continue
+            for f in ('body', 'orelse'):
+                blk = getattr(st, f, None)
+                if isinstance(blk, list) and blk and isinstance(blk[0], ast.stmt) and not isinstance(st, ast.FunctionDef):
+                    new = self.preprocess(blk, st if isinstance(st, ast.For) else loop, top)
+                    setattr(st, f, new if (new or f == 'orelse') else [ast.Pass()])
+            out.append(st)
+        return out
+
     # -- whole function
     def translate(self):
         fn = self.fn
@@ -695,15 +775,19 @@ class FnTranslator:
         a = fn.args
         if a.vararg or a.kwarg or a.posonlyargs:
             refuse('*args / **kwargs', fn)
-        for n in ast.walk(fn):
+        body_stmts = self.preprocess(self.slice_body(fn))
+        scan = ast.Module(body=body_stmts, type_ignores=[])
+        for n in ast.walk(scan):
             if isinstance(n, (ast.Global, ast.Nonlocal, ast.Try, ast.With, ast.Yield, ast.YieldFrom, ast.Lambda,
                               ast.Await, ast.AsyncFor, ast.AsyncWith, ast.ClassDef, ast.Import, ast.ImportFrom,
                               ast.Delete, ast.Assert, ast.NamedExpr, ast.Starred, ast.Match)):
                 # anything inside a skipped nested def is not looked at
-                if not any(n in list(ast.walk(d)) for d in fn.body if isinstance(d, ast.FunctionDef) and d.name in self.skip_defs):
+                if not any(n in list(ast.walk(d)) for d in body_stmts if isinstance(d, ast.FunctionDef) and d.name in self.skip_defs):
                     refuse('construct %s' % type(n).__name__, n)
         pmap = self.cfg.get('params', {})
         env = Env()
+        for name, (coq, ty) in self.cfg.get('pre_env', {}).items():
+            env = env.bind(name, coq, ty)
         pyparams = [x.arg for x in a.args + a.kwonlyargs]
         if set(pyparams) - {'self'} != set(pmap):
             refuse('parameter list %s differs from the config %s' % (pyparams, sorted(pmap)), fn)
@@ -715,7 +799,7 @@ class FnTranslator:
         fctx = Ctx(ret=lambda r: r)
         def fall(e):
             refuse('control can fall off the end of the function (implicit return None)', fn)
-        body = self.block(fn.body, env, fctx, fall)
+        body = self.block(body_stmts, env, fctx, fall)
         if self.fuel:
             refuse('config lists more while loops than the function has', fn)
         text = '\n\n'.join(self.loops + ['Definition %s %s : %s :=\n  %s.' % (self.name, self.formal_args(), self.res_ty, pretty(body))])
@@ -758,7 +842,9 @@ def find_function(tree, cls, func):
 
 
 def stub(cfg, why):
-    args = ' '.join('(%s : %s)' % (a, t) for a, t in cfg['args'])
+    for t, c in cfg.get('types', {}).items():
+        COQ_TY[t] = c
+    args = ' '.join('(%s : %s)' % (a, coq_ty(t)) for a, t in cfg['args'])
     why = why.replace('*)', '* )').replace('(*', '( *')
     return ('(* REFUSED: %s *)\nDefinition %s_untranslated : bool := true.\n'
             'Definition %s %s : %s :=\n  %s.' % (why, cfg['coq_name'], cfg['coq_name'], args, cfg['res_ty'], cfg['stub']))
@@ -773,8 +859,8 @@ def translate_target(repo, cfg):
         if len(fs) != 1:
             raise Refuse('function %s.%s found %d times' % (cfg.get('cls'), cfg['func'], len(fs)))
         body = FnTranslator(cfg, fs[0]).translate()
-        head = '(* %s.%s of %s, lines %d-%d *)\nDefinition %s_untranslated : bool := false.\n' % (
-            cfg.get('cls'), cfg['func'], cfg['file'], fs[0].lineno, fs[0].end_lineno, cfg['coq_name'])
+        head = '(* %s %s of %s, lines %d-%d *)\nDefinition %s_untranslated : bool := false.\n' % (
+            cfg.get('cls') or 'function', cfg['func'], cfg['file'], fs[0].lineno, fs[0].end_lineno, cfg['coq_name'])
         return head + body, True, ''
     except Refuse as e:
         return stub(cfg, str(e)), False, str(e)
